@@ -1798,14 +1798,15 @@ func (e *CoreExtension) filterMerge(value interface{}, args ...interface{}) (int
 		}
 
 		if !sameType {
+			// (keys are walked in the fixed order: two of them may turn into the same string)
 			generic := make(map[string]interface{}, rv.Len())
-			for _, key := range rv.MapKeys() {
+			for _, key := range sortedMapKeys(rv) {
 				generic[toString(key.Interface())] = mapEntry(rv, key)
 			}
 			for _, arg := range args {
 				argRv := reflect.ValueOf(arg)
 				if argRv.Kind() == reflect.Map {
-					for _, key := range argRv.MapKeys() {
+					for _, key := range sortedMapKeys(argRv) {
 						generic[toString(key.Interface())] = mapEntry(argRv, key)
 					}
 				}
